@@ -1663,15 +1663,14 @@ pub fn c02(c: &Collector, g: &mut Guard) {
                 let chunks: Vec<Vec<u8>> = bytes.chunks(k).map(|x| x.to_vec()).collect();
                 n += 1;
                 let r = screen_after_bytes(&start_big, &chunks, utf8);
-                // the replay record keeps the chunk size, not the (large) chunk list
-                let op = Op::FeedBytes(if bytes.len() <= 600 { chunks } else { vec![bytes[..200].to_vec()] }, utf8);
+                let op = Op::FeedBytes(chunks, utf8);
                 c02_verdict(cc, &start_big, &[], op, &base, &single, r, &format!("long.k{}", k));
             }
             // one cut in the middle
             let mid = bytes.len() / 2;
             n += 1;
             let r = screen_after_bytes(&start_big, &[bytes[..mid].to_vec(), bytes[mid..].to_vec()], utf8);
-            let op = Op::FeedBytes(if bytes.len() <= 600 { vec![bytes[..mid].to_vec(), bytes[mid..].to_vec()] } else { vec![bytes[..200].to_vec()] }, utf8);
+            let op = Op::FeedBytes(vec![bytes[..mid].to_vec(), bytes[mid..].to_vec()], utf8);
             c02_verdict(cc, &start_big, &[], op, &base, &single, r, "long.mid");
         };
         for (i, (_, text)) in longs.iter().enumerate() {
@@ -1697,7 +1696,7 @@ pub fn c02(c: &Collector, g: &mut Guard) {
                 let chunks: Vec<String> = chars.chunks(k).map(|x| x.iter().collect()).collect();
                 n += 1;
                 let r = screen_after_chars(&start_big, &chunks, true);
-                let op = Op::Feed(if chars.len() <= 300 { chunks } else { vec![chars[..100].iter().collect()] }, true);
+                let op = Op::Feed(chunks, true);
                 c02_verdict(cc, &start_big, &[], op, &base, &single, r, &format!("long.chars.k{}", k));
             }
         }
